@@ -18,6 +18,7 @@ RULE = (
     "history = generated device/drive (mild .. violent: dt up to 50x the explicit stability scale) x (dt_init, dt_max, window 1..10, "
     "multiplier in (0,1), max retries 0..10) x adaptive on/off x screening on/off, 10..80 update calls driven by the harness, optionally with one restart of the step counter and clock (as after a thermalisation stage; during the new warm-up window only the bounds are asserted); "
     "non-trivial = the history contains a post-window proposal different from dt_max and dt_init; distinct by spec hash"
+    "; terminal_psi in {0, None, 1, 0.6+0.3j}"
 )
 ASSUMPTIONS = [
     "the retry count allowed is the documented pseudo-code's: the error is raised when the counter exceeds the maximum, i.e. after max_retries+2 refused attempts",
